@@ -456,7 +456,22 @@ static TCP_RESETS: std::sync::atomic::AtomicU64 = std::sync::atomic::AtomicU64::
 pub fn run(tier: &str) -> i32 {
     quiet_panics();
     let thorough = tier == "thorough";
-    let v = Verdicts::load("C17");
+    let v = std::sync::Arc::new(Verdicts::load("C17"));
+    {
+        // two sessions that block each other for good inside use-db / disconnect: the controlled run can never be joined
+        let (v2, tier2) = (v.clone(), tier.to_string());
+        *sched::ON_STUCK.lock().unwrap() = Some(std::sync::Arc::new(move |events: &[Ev], decisions: &[usize]| {
+            v2.report(json!({"check": "connections", "mode": "interleaved", "problem": "sessions-blocked-forever"}), json!({"events": format!("{:?}", events), "decisions": decisions, "explanation": "every session had been let go and none finished its command within 20 s: the commands deadlocked"}));
+            let mut ev = Evidence::new("C17", &tier2, "exploration");
+            ev.rule = "aborted: two sessions deadlocked in the controlled interleaving part; see the replay".into();
+            ev.violations = v2.violation_count();
+            ev.write();
+            cleanup_scratch();
+            let code = v2.finish(&tier2);
+            println!("C17 {}: aborted after a deadlock of two sessions, {} violations", tier2, v2.violation_count());
+            std::process::exit(code);
+        }));
+    }
     let mut ev = Evidence::new("C17", tier, "exploration");
     let st = Mutex::new(SeqStats { sequences: 0, events: 0, shapes: BTreeSet::new(), notifications_checked: 0, samples: vec![] });
     let mut rng = Rng::new(seed());
